@@ -202,7 +202,7 @@ def run(ctx: lib.Ctx) -> None:
     for name, doc in recorded:
         groups.append(('recorded:' + name, {'branch': doc['branch'], 'contents': [strip_meta(c) for c in doc['contents']]}))
     groups += [('systematic', g) for g in systematic_groups(rng)]
-    n_total = ctx.n(420, 12000)
+    n_total = ctx.n(800, 12000)
     while len(groups) < n_total:
         g = gen_group(rng)
         groups.append(('random', g))
@@ -256,7 +256,7 @@ def run(ctx: lib.Ctx) -> None:
             ctx.violation(why, replay_doc(g, raw), found=True)
     ctx.extra['recorded_mainnet_groups'] = [n for n, _ in recorded]
 
-    bad = ctx.coq_mismatches('groups', IMPORTS, 'check_group', 'check_eqb', 'group', 'bytes * bool * bool * bool', cases, shard=ctx.n(30, 100))
+    bad = ctx.coq_mismatches('groups', IMPORTS, 'check_group', 'check_eqb', 'group', 'bytes * bool * bool * bool', cases, shard=ctx.n(50, 100))
     if reported == 0 and (bad or problems):
         rep = {'correspondence': 'C06/forge_operation_group vs Codec.Ops.forge_operation_group (= enc_group)', 'disagreements': len(bad),
                'tables': problems}
